@@ -21,6 +21,8 @@ import (
 	"wa-lang.org/wa/api"
 	"wa-lang.org/wa/internal/waroot/malloc"
 	"wa-lang.org/wa/internal/wat/watutil"
+	"wa-lang.org/wa/internal/wat/watutil/wat2c"
+	"wa-lang.org/wa/internal/wat/watutil/watfmt"
 	"wa-lang.org/wa/internal/wat/watutil/watstrip"
 )
 
@@ -85,10 +87,42 @@ func run(args []string) error {
 			return err
 		}
 		return os.WriteFile(args[2], out, 0o644)
+	case "wat2c":
+		// wbuild wat2c in.wat out.c out.h prefix
+		src, err := os.ReadFile(args[1])
+		if err != nil {
+			return err
+		}
+		_, code, header, err := watutil.Wat2C(args[1], src, wat2c.Options{Prefix: args[4]})
+		if err != nil {
+			return err
+		}
+		if err := os.WriteFile(args[3], header, 0o644); err != nil {
+			return err
+		}
+		return os.WriteFile(args[2], code, 0o644)
 	case "malloc":
 		n := func(i int) int32 { v, _ := strconv.Atoi(args[i]); return int32(v) }
 		h := malloc.NewHeap(&malloc.Config{MemoryPages: n(2), MemoryPagesMax: n(3), StackPtr: n(4), HeapBase: n(5), HeapLFixedCap: n(6)})
 		return os.WriteFile(args[1], h.WasmBytes(), 0o644)
+	case "watfmt":
+		src, err := os.ReadFile(args[1])
+		if err != nil {
+			return err
+		}
+		out, err := watfmt.Format(args[1], src)
+		if err != nil {
+			return err
+		}
+		return os.WriteFile(args[2], out, 0o644)
+	case "malloc-wat":
+		// the expanded allocator text (as malloc.NewHeap assembles it): wbuild malloc-wat out.wat pages pagesMax stackPtr heapBase lfixedCap
+		n := func(i int) int32 { v, _ := strconv.Atoi(args[i]); return int32(v) }
+		txt, err := malloc.ExpandedWat(&malloc.Config{MemoryPages: n(2), MemoryPagesMax: n(3), StackPtr: n(4), HeapBase: n(5), HeapLFixedCap: n(6)})
+		if err != nil {
+			return err
+		}
+		return os.WriteFile(args[1], txt, 0o644)
 	case "watstrip":
 		src, err := os.ReadFile(args[1])
 		if err != nil {
